@@ -1,6 +1,7 @@
 """C01 — merged output chronological with a deterministic tie rule. Engines: E-SCHED (+ input enumeration)."""
 import itertools
 import os
+import re
 import shutil
 
 import common
@@ -33,6 +34,10 @@ def source_bytes(kind, seq, pos):
             stamp, off = base.rsplit(b" ", 1)
             lines.append(stamp + b"0 " + off + b" n%d-%d" % (pos, j))
         return "s%d.txt" % pos, b"\n".join(lines) + b"\n"
+    if kind == "L":
+        # long multi-line messages: two lines of 1200 bytes (more than the printer's 2056-byte buffer in total)
+        assert all(t % 1000 == 0 for t in seq)
+        return "s%d.log" % pos, gen.text_log([(E_MS + t // 1000, b"L%d-%d " % (pos, j) + b"l" * 1200, [b"c" * 1200]) for j, t in enumerate(seq)])
     if kind == "U":
         return "s%d.wtmp" % pos, gen.utmp_file([(gen.EPOCH_2000 + t // 1000000, t % 1000000, b"%d-%d" % (pos, j)) for j, t in enumerate(seq)])
     raise ValueError(kind)
@@ -73,6 +78,12 @@ class Corpus:
                 want, got = sorted(set(want)), sorted(set(got))
             if want != got:
                 self.bad.append((kind, list(seq), pos, want, got, rel))
+            elif kind != "U":
+                # the chunks of the single-source run, prefixes removed, are the file (every message whole and in place)
+                pref = re.compile(rb"^" + re.escape(name.encode()) + rb":\d{8}T\d{6}\.\d{9}:", re.M)
+                plain = b"".join(pref.sub(b"", c) for _, c in msgs)
+                if plain != data:
+                    self.bad.append((kind, list(seq), pos, [b"<file bytes: %d>" % len(data)], [b"<printed bytes without prefixes: %d>" % len(plain)], rel))
             self.cache[key] = (rel, name, msgs, data)
         return self.cache[key]
 
@@ -109,6 +120,12 @@ def run(tier, seed, build=True):
             for sp in ([0, 1000000], [500000, 1000000], [200000]):
                 cases.append([("S", ss), ("T", sp)])
                 cases.append([("T", sp), ("S", ss)])
+        # long messages interleaved with another source's (the tail of a message may not be held back)
+        for lseq in ([0, 1000000], [0, 1000000, 2000000]):
+            for tseq in ([500000, 1500000], [0, 1000000], [1500000]):
+                cases.append([("L", lseq), ("T", tseq)])
+                cases.append([("T", tseq), ("L", lseq)])
+        cases.append([("L", [0, 1000000]), ("L", [500000, 1000000])])
         for k in ("T", "U", "O", "S"):
             for s_ in kindseqs[k]:
                 cases.append([(k, s_)])
